@@ -578,7 +578,40 @@ impl Scenario for Multisig {
                 vm.bump_nonce.set(true);
                 self.compare(&vm, &ids, &m).expect("SETUP-FAILED self-signer base");
             }
-            out.push((label.to_string(), ids, vm.snapshot(), m));
+            out.push((label.to_string(), ids.clone(), vm.snapshot(), m.clone()));
+            if label == "thr3" {
+                // four signers, threshold 4, two transactions pending with three approvals each
+                // (a transfer, and the removal of the earliest approver S1 waiting for Z's approval):
+                // built by real messages, the model in lock-step
+                vm.bump_nonce.set(false);
+                let mut sends = vec![];
+                let mut run = |who: ActorID, call: Call, m: &mut Ms| {
+                    let r = match &call {
+                        Call::Propose(spec) => {
+                            let (to, v, me, p) = encode(spec, &ids);
+                            ext(&vm, who, &id(x), &TokenAmount::zero(), Method::Propose as u64, Some(&ProposeParams { to: id(to), value: atto(v as i128), method: me, params: p }))
+                        }
+                        Call::Approve(i, _) => ext(&vm, who, &id(x), &TokenAmount::zero(), Method::Approve as u64, Some(&TxnIDParams { id: TxnID(*i), proposal_hash: vec![] })),
+                        _ => unreachable!(),
+                    };
+                    assert!(r.ok(), "SETUP-FAILED four-signer base: {}", r.tree());
+                    assert!(m.call(who, &call, vm.epoch(), &ids, &mut sends), "SETUP-FAILED four-signer base (model rejects)");
+                };
+                run(s1, Call::Propose(TxSpec::AddSigner(Who::Z, true)), &mut m);
+                run(s2, Call::Approve(0, HashSel::None), &mut m);
+                run(s3, Call::Approve(0, HashSel::None), &mut m);
+                run(s1, Call::Propose(TxSpec::Send(SMALL)), &mut m);
+                run(s2, Call::Approve(1, HashSel::None), &mut m);
+                run(s3, Call::Approve(1, HashSel::None), &mut m);
+                run(s1, Call::Propose(TxSpec::RemoveSigner(Who::S1, true)), &mut m);
+                run(s2, Call::Approve(2, HashSel::None), &mut m);
+                run(s3, Call::Approve(2, HashSel::None), &mut m);
+                m.executed.clear();
+                m.proposals_left = std::cmp::min(m.proposals_left, 1);
+                vm.bump_nonce.set(true);
+                self.compare(&vm, &ids, &m).expect("SETUP-FAILED four-signer base");
+                out.push(("four-signers-thr4-pending".to_string(), ids, vm.snapshot(), m));
+            }
         }
         vm.bump_nonce.set(false);
         W { vm, ids: out }
